@@ -139,14 +139,24 @@ CrossFamily == { [fam |-> "crosstype", c1 |-> p[1], a1 |-> p[2], c2 |-> q[1], a2
 
 Families == ConstFamily \cup StrFamily \cup OpFamily \cup NegFamily \cup OrderFamily \cup SelFamily \cup ArgFamily \cup CrossFamily
 
+\* thorough tier: ANY two rules of a pool (the members of the families above), not only the designed pairs
+CONSTANT Pool
+PoolOf(fams) == UNION {{<<m.c1, m.a1>>, <<m.c2, m.a2>>} : m \in fams}
+PoolTerms == PoolOf({m \in ConstFamily : m.c1.op \in {"eq", "lt"}}) \cup PoolOf({m \in StrFamily : m.c1.op = "eq"})
+             \cup PoolOf({m \in SelFamily : m.c1.op = "eq"}) \cup PoolOf({m \in ArgFamily : m.c1.op = "gt"}) \cup PoolOf(NegFamily)
+             \cup CrossTerms \cup PoolOf({m \in OpFamily : m.fam = "logic"})
+PoolFacts == << Fact(D(0, 0), 1, 2, "a", "b", TRUE), Fact(D(0, 0), 3, 1, "b", "a", FALSE), Fact(D(5, -1), 2, 2, "", "a", TRUE),
+               Fact(DF(1, 0), 0, 5, "1", "b", FALSE), Fact(D(15, -1), 1, 0, "ab", "ab", TRUE) >>
+PoolFamily == { [fam |-> "pool", c1 |-> p[1], a1 |-> p[2], c2 |-> q[1], a2 |-> q[2], facts |-> PoolFacts] : p \in PoolTerms, q \in PoolTerms }
+
 VARIABLE case
 Alone(c, a, facts) == [i \in DOMAIN facts |-> [holds |-> Ev(c, facts[i]).b, stores |-> Ev(a, facts[i])]]
-Init == \E m \in Families :
+Init == \E m \in (IF Pool THEN PoolFamily ELSE Families) :
           /\ m.c1 # m.c2 \/ m.a1 # m.a2
           /\ case = m @@ [want1 |-> Alone(m.c1, m.a1, m.facts), want2 |-> Alone(m.c2, m.a2, m.facts)]
 Next == UNCHANGED case
 Spec == Init /\ [][Next]_case
 \* design-level statement: the two siblings really are distinguishable on the listed facts, or are the same rule
-Distinguishable == case.want1 # case.want2 \/ case.fam \in {"operator", "comparison", "logic", "order", "argument", "selector", "crosstype"}
+Distinguishable == case.want1 # case.want2 \/ case.fam \in {"operator", "comparison", "logic", "order", "argument", "selector", "crosstype", "pool"}
 Export == PrintT("CASE " \o ToJson(case))
 =============================================================================
